@@ -19,7 +19,7 @@ CLOSE = ")]}"
 PAIR = {")": "(", "]": "[", "}": "{"}
 NONTOKENS = ["@", "`", "\\", "/*", "//", "'", '"',
              # characters that are neither C tokens nor C white space, and the null directive
-             "\ufeff", "\u00a0", "\u200b", "\n#\n", "\n# \t\n", "\n#define X\n", "\n#include <a.h>\n", "\n#if 0\n",
+             "\ufeff", "\u00a0", "\u200b", "\n#\n", "\n# \t\n", "\x00", "\x1b", "\x7f", "\u0085", "\uffff", "\n#define X\n", "\n#include <a.h>\n", "\n#if 0\n",
              # directives whose name merely begins like a supported one
              "\n#pragmatic x\n", "\n#pragma_once\n", "\n#pragma2\n", "\n# pragmas ]] ((\n",
              "\n#linex 3\n", "\n#line_ 3 \"f\"\n", "\n#lines\n", "\n#elif 1\n", "\n#endif\n", "\n#error x\n"]
@@ -101,7 +101,7 @@ def _mut_work(items):
         # (d) non-token injections at every gap (the directive look-alikes only
         # in programs of at most 10 tokens: their effect does not depend on what
         # surrounds the line)
-        junks = NONTOKENS if len(toks) <= 10 else NONTOKENS[:15]
+        junks = NONTOKENS if len(toks) <= 10 else NONTOKENS[:20]
         for i in range(len(toks) + 1):
             for junk in junks:
                 for far in (FAR if len(toks) <= 10 else FAR[:1]):
